@@ -1477,6 +1477,14 @@ class Engine:
                     return sym == "!="
                 e = V.b_and(*[self.compare(st, ast.Eq(), x, y) for x, y in zip(a, b)])
                 return e if sym == "==" else V.b_not(e)
+        if isinstance(a, Opaque) and isinstance(b, Opaque) and sym in ("==", "!=") and (a.name.startswith("dtype:") != b.name.startswith("dtype:")):
+            # numpy dtype compared with a Python / numpy scalar type: arr.dtype == object, == np.float64, ...
+            dt, ty = (a, b) if a.name.startswith("dtype:") else (b, a)
+            kinds = {"class:object": "obj", "object": "obj", "float64": "real", "float": "real", "class:float": "real", "int64": "int", "class:int": "int", "complex128": "cx", "class:complex": "cx", "bool_": "bool", "class:bool": "bool"}
+            tk = kinds.get(ty.name) or kinds.get(ty.name.split(".")[-1])
+            if tk is not None:
+                eq = dt.name == f"dtype:{tk}"
+                return eq if sym == "==" else (not eq)
         if isinstance(a, (Opaque, Closure, Builtin)) or isinstance(b, (Opaque, Closure, Builtin)):
             r = self.identical(st, a, b)
             if sym == "==":
